@@ -161,6 +161,14 @@ def run(chk, replay=None):
             stale = "stale-%d" % rng.randrange(1000)
             acases.append({"mode": "other", "op": op, "key": "p%d" % j, "preload": stale,
                            "value": stale if j < 3 else "new-%d" % rng.randrange(1000)})
+        # the start-up race: an apply that reaches the state-machine actor before its dependencies are injected
+        ba = lib.harness_run("ackchain", [{"mode": "bare_apply"}], timeout=60)[0]
+        n_eval += 1
+        if not ba.get("alive"):
+            chk.classify("startup-race:apply-before-inject",
+                         "StateApplyManager asked to apply an entry before its dependencies were injected answered %r and is dead "
+                         "afterwards: a node started under load can never apply an entry again" % ba.get("first"),
+                         {"suite": "ackchain", "case": {"mode": "bare_apply"}, "impl": ba})
         ares = lib.harness_run("ackchain", acases, timeout=180)
         if any(isinstance(r["answer"], dict) and "Mailbox has closed" in str(r["answer"]) for c, r in zip(acases, ares) if c["mode"] == "leader"):
             ares = lib.harness_run("ackchain", acases, timeout=180)     # actor start-up race of the in-process node: once more
